@@ -374,6 +374,26 @@ func (c *Ctx) IAdd(a, b string) string {
 	}
 	return "(bvadd " + a + " " + b + ")"
 }
+// EIdx is the absolute position of element k of a slice with offset off. It is an uninterpreted
+// function with the defining axiom eidx(off,k) = off+k (trigger: the application), so that
+// quantified facts about slice elements are instantiated by E-matching on the element index
+// instead of being lost when the solver normalises the arithmetic.
+func (c *Ctx) EIdx(off, k string) string {
+	if off == c.ILit(0) {
+		return k
+	}
+	if !c.has("eidx") {
+		I := c.I()
+		c.Fun("eidx", []string{I, I}, I)
+		sum := "(+ o k)"
+		if c.Mode == ModeBV {
+			sum = "(bvadd o k)"
+		}
+		c.Axiom([]string{"eidx"}, fmt.Sprintf("(forall ((o %s) (k %s)) (! (= (eidx o k) %s) :pattern ((eidx o k))))", I, I, sum))
+	}
+	return "(eidx " + off + " " + k + ")"
+}
+
 func (c *Ctx) ISub(a, b string) string {
 	if c.Mode == ModeInt {
 		return "(- " + a + " " + b + ")"
